@@ -46,11 +46,26 @@ Definition save_gate (l : StrictnessLevel) (ds : list ErrorLevel) (create_ok : b
   else if create_ok then (SaveOk, fs_set f p content)
   else (SaveErr (map eE ds ++ [EBreaking]), f).
 
+(* the same wrapper over the documented table (used as the oracle; equal to save_gate by C07_save_gate_doc) *)
+Definition save_gate_doc (l : slevel) (ds : list elevel) (create_ok : bool)
+           (content : text) (f : fs) (p : text) : save_result * fs :=
+  if existsb (fun e => fails_doc e l) ds then (SaveErr ds, f)
+  else if create_ok then (SaveOk, fs_set f p content)
+  else (SaveErr (ds ++ [EBreaking]), f).
+
 (* ----- executable entry points for the correspondence ----- *)
 Definition elevel_of_Z (z : Z) : ErrorLevel :=
   match z with 0%Z => BreakingError | 1%Z => InvalidatingError | 2%Z => StrictWarning | 3%Z => LooseWarning | _ => GeneralWarning end.
 Definition slevel_of_Z (z : Z) : StrictnessLevel :=
   match z with 0%Z => Strict | 1%Z => Medium | _ => Loose end.
+
+(* the documented table addressed by declaration rank, independent of the generated file *)
+Definition spec_elevel_of_Z (z : Z) : elevel :=
+  match z with 0%Z => EBreaking | 1%Z => EInvalidating | 2%Z => EStrictW | 3%Z => ELooseW | _ => EGeneralW end.
+Definition spec_slevel_of_Z (z : Z) : slevel :=
+  match z with 0%Z => LStrict | 1%Z => LMedium | _ => LLoose end.
+(* the gate laws are judged against the documented table, so that a changed table in the code cannot excuse itself *)
+Definition gate_doc (l : slevel) (ds : list elevel) : bool := existsb (fun e => fails_doc e l) ds.
 
 (* entry points:
    (fails e l)                    -> t | f
@@ -66,18 +81,16 @@ Definition sentinel_path : text := stext "target".
 Definition run_levels (x : sx) : sx :=
   match x with
   | SL [SY "fails"; SZ e; SZ l] => sbool (fails (elevel_of_Z e) (slevel_of_Z l))
+  | SL [SY "failsdoc"; SZ e; SZ l] => sbool (fails_doc (spec_elevel_of_Z e) (spec_slevel_of_Z l))
   | SL [SY "gatelaw"; SZ l; acc; SL ds] =>
-      match gate (slevel_of_Z l) tt (levels_of ds) with
-      | Accepted _ _ => if get_bool acc then SY "ok" else SY "gate-mismatch"
-      | Rejected rs => if get_bool acc then SY "gate-mismatch" else
-                       match rs with [] => SY "gate-mismatch" | _ => SY "ok" end
-      end
+      if Bool.eqb (gate_doc (spec_slevel_of_Z l) (map (fun d => spec_elevel_of_Z (get_Z d)) ds)) (negb (get_bool acc))
+      then SY "ok" else SY "gate-mismatch"
   | SL [SY "mono"; a; b; c] =>
       if (mono_ok (get_pair a) (get_pair b) && mono_ok (get_pair b) (get_pair c))%bool
       then SY "ok" else SY "not-monotone"
   | SL [SY "save"; SZ l; SL ds; pre] =>
       let f0 : fs := if get_bool pre then [(sentinel_path, stext "previous")] else [] in
-      match save_gate (slevel_of_Z l) (levels_of ds) true (stext "content") f0 sentinel_path with
+      match save_gate_doc (spec_slevel_of_Z l) (map (fun d => spec_elevel_of_Z (get_Z d)) ds) true (stext "content") f0 sentinel_path with
       | (SaveOk, f1) =>
           SL [SY "ok"; match fs_get f1 sentinel_path with
                        | Some c => if list_eq_dec ascii_dec c (stext "content") then SY "written" else SY "other-content"
